@@ -27,11 +27,16 @@ UNIVERSES = {  # must mirror the constants of spec/MemIndex/Gen_*.cfg (probe/see
     "U2b": dict(alpha=[0, 97], maxlen=2, cfs=[0], pvers=[0, 1, 2]),
     "U3": dict(alpha=[97], maxlen=1, cfs=[0, 1], pvers=[0, 1, 2, 3, MAXV]),
     "UB": dict(alpha=[0, 97, 255], maxlen=3, cfs=[0, 1], pvers=[0, 1, 2, 3, MAXV]),
+    # wide fan-out at one byte position (ART Node48 / Node256), one-byte user keys only (prefix-free, so the
+    # recorded ART finding excuses nothing); probes also cover the bytes next to 0x00 / 0xFF and other gaps
+    "W17": dict(alpha=sorted({0, 1, 2, 25, 96, 98, 253} | set(range(3, 25)) | {97, 254, 255}), minlen=1, maxlen=1, cfs=[0], pvers=[0, 1, 2]),
+    "W49": dict(alpha=sorted({0, 1, 2, 63, 96, 98, 253} | set(range(3, 63)) | {97, 254, 255}), minlen=1, maxlen=1, cfs=[0], pvers=[0, 1, 2]),
 }
 GEN = {  # cfg -> (universe, exhaustive?)
     "Gen_U1x2.cfg": "U1", "Gen_U1x3.cfg": "U1", "Gen_U2x3.cfg": "U2", "Gen_U2x5.cfg": "U2b",
-    "Gen_U3x3.cfg": "U3", "Gen_U3x4.cfg": "U3", "Gen_UBx5.cfg": "UB",
+    "Gen_U3x3.cfg": "U3", "Gen_U3x4.cfg": "U3", "Gen_UBx5.cfg": "UB", "Gen_W17.cfg": "W17", "Gen_W49.cfg": "W49",
 }
+SIM_DEPTH = {"Gen_UBx5.cfg": 7, "Gen_W17.cfg": 72, "Gen_W49.cfg": 202}
 
 
 def universe(u):
@@ -40,6 +45,7 @@ def universe(u):
     for _ in range(u["maxlen"]):
         layer = [k + [b] for k in layer for b in u["alpha"]]
         ks += layer
+    ks = [k for k in ks if len(k) >= u.get("minlen", 0)]
     return [{"cf": cf, "k": k, "ver": v} for cf in u["cfs"] for k in ks for v in u["pvers"]]
 
 
@@ -69,7 +75,7 @@ def probes_for_case(rng, uname, keys, cap=40):
 
 
 def gen_cases(ctx, cfg, simulate=None, seed=None):
-    r = ctx.tlc_or_undecided("MemIndex", cfg, workers=1 if simulate else 2, simulate=simulate, depth=7 if simulate else None,
+    r = ctx.tlc_or_undecided("MemIndex", cfg, workers=1 if simulate else 2, simulate=simulate, depth=SIM_DEPTH[cfg] if simulate else None,
                              seed=seed, timeout=900)
     if r.violated:
         raise Undecided("generator %s violated %s" % (cfg, r.violated))
@@ -179,18 +185,57 @@ def run_driver(ctx, headers, cases):
                 fh.write(json.dumps(c) + "\n")
         procs.append((subprocess.Popen([binp, "-in", inp, "-out", outp], stdout=subprocess.PIPE, stderr=subprocess.STDOUT, text=True), outp))
     traces = {}
-    for p, outp in procs:
+    crashed_parts = []
+    for (p, outp), part in zip(procs, [pt for pt in chunks(cases, ctx.workers) if pt]):
         try:
             out, _ = p.communicate(timeout=1800)
         except subprocess.TimeoutExpired:
             p.kill()
             raise Undecided("memindex driver timed out")
         if p.returncode != 0:
-            raise Undecided("memindex driver failed (%d): %s" % (p.returncode, out[-3000:]))
+            crashed_parts.append((part, p.returncode, out[-1500:]))
+            continue
         for line in open(outp):
             ev = json.loads(line)
             traces.setdefault(ev.pop("s"), []).append(ev)
+    # A driver process that died (fatal runtime error inside an engine cannot be recovered in-process): run the
+    # cases of that shard one by one and per engine; a case that kills its process again is recorded as a Crash
+    # event (which no action of the trace spec explains). Not reproducible => could not decide.
+    for part, rc, tail in crashed_parts:
+        reproduced = False
+        for c in part:
+            for ei, eng in enumerate(ENGINES):
+                evs, why = None, ""
+                for attempt in range(3 if c.get("threads") else 1):
+                    evs, why = run_one(ctx, binp, headers, c, eng)
+                    if evs is None:
+                        break
+                if evs is None:
+                    reproduced = True
+                    evs = [{"e": "Crash", "eng": eng, "msg": why[-600:]}]
+                traces[c["id"] * 2 + ei] = evs
+        if not reproduced:
+            raise Undecided("memindex driver died (%d) and no single case reproduces it: %s" % (rc, tail))
     return traces
+
+
+def run_one(ctx, binp, headers, c, eng):
+    d = ctx.mkdtemp("one")
+    inp, outp = os.path.join(d, "in.ndjson"), os.path.join(d, "out.ndjson")
+    with open(inp, "w") as fh:
+        for h in headers:
+            fh.write(json.dumps(h) + "\n")
+        fh.write(json.dumps(dict(c, engines=[eng])) + "\n")
+    try:
+        p = subprocess.run([binp, "-in", inp, "-out", outp], stdout=subprocess.PIPE, stderr=subprocess.STDOUT, text=True, timeout=600)
+    except subprocess.TimeoutExpired:
+        return None, "timeout"
+    if p.returncode != 0:
+        return None, "exit %d: %s" % (p.returncode, p.stdout[-1200:])
+    evs = []
+    for line in open(outp):
+        ev = json.loads(line); ev.pop("s"); evs.append(ev)
+    return evs, ""
 
 
 # ----------------------------------------------------------------------- classification
@@ -244,10 +289,11 @@ def run(ctx):
     # ------------------------------------------------------------------ M2: cases
     plan = [("Gen_U1x2.cfg", None, None)]
     if quick:
-        plan += [("Gen_U3x3.cfg", None, 200), ("Gen_U2x3.cfg", None, 200), ("Gen_UBx5.cfg", 260, None)]
+        plan += [("Gen_U3x3.cfg", None, 200), ("Gen_U2x3.cfg", None, 200), ("Gen_UBx5.cfg", 220, None),
+                 ("Gen_W17.cfg", 24, None), ("Gen_W49.cfg", 12, None)]
     else:
         plan += [("Gen_U1x3.cfg", None, None if ctx.workers >= 12 else 6000), ("Gen_U2x3.cfg", None, None), ("Gen_U3x4.cfg", None, 2000),
-                 ("Gen_U2x5.cfg", None, 1500), ("Gen_UBx5.cfg", 1500, None)]
+                 ("Gen_U2x5.cfg", None, 1500), ("Gen_UBx5.cfg", 1500, None), ("Gen_W17.cfg", 150, None), ("Gen_W49.cfg", 60, None)]
 
     def gen(item):
         cfg, sim, cap = item
@@ -256,7 +302,7 @@ def run(ctx):
     ctx._specdir()
     with ThreadPoolExecutor(max_workers=max(1, ctx.workers // 2)) as ex:
         gens = list(ex.map(gen, plan))
-    headers = [{"psets": {u: universe(UNIVERSES[u]) for u in ("U1", "U2", "U2b", "U3")}}]
+    headers = [{"psets": {u: universe(UNIVERSES[u]) for u in ("U1", "U2", "U2b", "U3", "W17", "W49")}}]
     cases, meta = [], {}
     gen_stats = {}
     for cfg, sim, cap, hs, r in gens:
@@ -274,6 +320,8 @@ def run(ctx):
                 c["targets"] = c["probes"][:20]
             else:
                 c["pset"] = c["tset"] = uname
+                if uname.startswith("W"):
+                    c["lim"] = 2        # seeks from every probe in both directions, two entries each
             meta[c["id"]] = cfg
             cases.append(c)
     # recorded findings stay in the case set
@@ -293,6 +341,12 @@ def run(ctx):
         th = 2 + i % 3
         c = big_case(rng, len(cases), n, th, prefix_free=(i % 3 != 0))
         c["probes"], c["targets"] = c["probes"][:40], c["targets"][:6]
+        if i % 3 != 2:
+            # arena just above the minimum (one 1 MiB chunk) and enough concurrent data to roll into new chunks
+            c["arena"] = rng.choice([1, 1 << 20, (1 << 20) + 4096])
+            for th_ in c["threads"]:
+                for x in th_:
+                    x["pad"] = rng.choice([9000, 20000, 45000])
         meta[c["id"]] = "concurrent-%d" % th + ("-prefixfree" if i % 3 != 0 else "")
         cases.append(c)
     ctx.log("M2: %d cases (%s)" % (len(cases), ", ".join("%s=%d" % (k, v["executed"]) for k, v in gen_stats.items())))
